@@ -59,6 +59,7 @@ type deliveryRule struct {
 	hCanon     string // canonical registration of the current iteration (set lazily)
 	eventCanon string // canonical published event
 	ctxCanons  []string
+	ctxOracle  *pubCtxOracle
 	// statistics / site inventory
 	invSites, claimSites, pollSites, filterSites, dispatchSites, spawnSites map[token.Pos]bool
 	sawRegistryWriteAfterLoop                                               bool
@@ -201,6 +202,9 @@ func (r *deliveryRule) OnInstr(e *Engine, st *State, fc *FrameCtx, in ssa.Instru
 			if fld, _, isF := r.ev.regFieldLoad(fc, arg); isF && fld == r.R.RegFilter {
 				continue // the filter itself, handed to the evaluating helper
 			}
+			if pt, ok := arg.Type().Underlying().(*types.Pointer); ok && r.R.RegT != nil && types.Identical(pt.Elem(), r.R.RegT) {
+				continue // the registration whose filter the helper evaluates
+			}
 			if a := e.CanonS(fc, arg); a != r.eventCanon {
 				e.Report(st, in.Pos(), "PublishContext/filter/arg", "the filter is evaluated on %s, not on the published event", a)
 			}
@@ -215,7 +219,7 @@ func (r *deliveryRule) OnInstr(e *Engine, st *State, fc *FrameCtx, in ssa.Instru
 	if _, _, ctxv, ok := ctxDoneSelect(in); ok {
 		r.pollSites[in.Pos()] = true
 		c := e.CanonS(fc, ctxv)
-		if !r.isPublishCtx(c) {
+		if !r.isPublishCtxV(e, fc, ctxv) {
 			e.Report(st, in.Pos(), "PublishContext/context-gate/which-context", "the polled context (%s) is not the publish context", c)
 		}
 		s.P = 'q' // polled, outcome pending
@@ -286,6 +290,19 @@ func (r *deliveryRule) OnInstr(e *Engine, st *State, fc *FrameCtx, in ssa.Instru
 		st.Note(in.Pos(), "async dispatch (go)")
 	}
 	return false
+}
+
+// isPublishCtxV: by canonical name along the path, or structurally (a context that went
+// through a pipeline helper such as beginPublish).
+func (r *deliveryRule) isPublishCtxV(e *Engine, fc *FrameCtx, v ssa.Value) bool {
+	if r.isPublishCtx(e.CanonS(fc, v)) {
+		return true
+	}
+	if r.ctxOracle == nil {
+		r.ctxOracle = newPubCtxOracle(e.P, r.R, e.cells)
+	}
+	av, _ := e.ArgValue(fc, v)
+	return r.ctxOracle.is(v) || r.ctxOracle.is(av)
 }
 
 func (r *deliveryRule) isPublishCtx(c string) bool {
@@ -406,7 +423,7 @@ func (r *deliveryRule) OnBranch(e *Engine, st *State, fc *FrameCtx, in *ssa.If, 
 	if x, nonNilOnTrue, ok := nilTest(in.Cond); ok {
 		if call, isCall := stripConv(x).(*ssa.Call); isCall && call.Common().IsInvoke() && call.Common().Method.Name() == "Err" && isNamed(call.Common().Value.Type(), "context", "Context") {
 			r.pollSites[call.Pos()] = true
-			if cv := e.CanonS(fc, call.Common().Value); !r.isPublishCtx(cv) {
+			if cv := e.CanonS(fc, call.Common().Value); !r.isPublishCtxV(e, fc, call.Common().Value) {
 				e.Report(st, in.Pos(), "PublishContext/context-gate/which-context", "the polled context (%s) is not the publish context", cv)
 			}
 			if taken == nonNilOnTrue {
@@ -696,6 +713,31 @@ func derivesFromAppend(v ssa.Value, d int, seen map[ssa.Value]bool) bool {
 		if b, ok := x.Common().Value.(*ssa.Builtin); ok && b.Name() == "append" {
 			return true
 		}
+		// the list a helper of the package built and returned
+		if sc := x.Common().StaticCallee(); sc != nil && len(sc.Blocks) > 0 {
+			if o := sc.Origin(); o != nil {
+				sc = o
+			}
+			for _, ret := range returnsOf(sc) {
+				for _, rv := range ret.Results {
+					if derivesFromAppend(resolveResultValue(ret, rv), d+1, seen) {
+						return true
+					}
+				}
+			}
+		}
+	case *ssa.Extract:
+		return derivesFromAppend(x.Tuple, d+1, seen)
 	}
 	return false
+}
+
+// resolveResultValue: like resolveResult for a given result value of ret.
+func resolveResultValue(ret *ssa.Return, rv ssa.Value) ssa.Value {
+	for i, r := range ret.Results {
+		if r == rv {
+			return resolveResult(ret, i)
+		}
+	}
+	return rv
 }
